@@ -88,3 +88,6 @@ from vlib.props.pgen import replay_model  # noqa: E402,F401
 BOUNDS = ["<= 2 input scaffolds of <= 3 rows, <= 1 cut per scaffold; all lengths/cuts/roundings/texel unbounded symbolic, strands symbolic or enumerated"]
 OUTSIDE = ["larger shapes", "per-assembly break/join split by input-name prefix (per_assembly_stats)", "the yaml text itself (write_info_yaml is run concretely in C16's harness)"]
 TRUSTED = ["CrossHair/z3 incl. CrossHair's set model for junction sets holding symbolic tuples", "integer abstraction of the PretextView model", "Fragment.key_tuple stub", "loader cuts"]
+
+TECHNIQUE = ("symbolic execution of the real pipeline + AssemblyStats (CrossHair + z3): independent recount of junctions over facing contig ends as z3 counts")
+LEVEL_TEXT = ("Breaks/joins/cuts are recounted independently for all geometries and strand mixtures of each template, including whole-scaffold reversal.")
